@@ -24,6 +24,10 @@ func ErrInvalidTxMessage() lib.ErrorI {
 	return lib.NewError(lib.CodeInvalidTxMessage, lib.StateMachineModule, "invalid transaction message")
 }
 
+func ErrNonCanonicalTx() lib.ErrorI {
+	return lib.NewError(lib.CodeInvalidTxMessage, lib.StateMachineModule, "transaction bytes are not the canonical encoding of the transaction")
+}
+
 func ErrInvalidVesting() lib.ErrorI {
 	return lib.NewError(lib.CodeInvalidTxMessage, lib.StateMachineModule, "invalid vesting schedule")
 }
